@@ -3,6 +3,7 @@ package main
 // solve.go: discharge obligations with a portfolio of SMT solvers.
 
 import (
+	"strconv"
 	"bytes"
 	"context"
 	"fmt"
@@ -62,6 +63,7 @@ func (o *Obligation) queryText(withModel bool) string {
 
 type solveOpts struct {
 	timeoutS int
+	noRetry  bool
 	seed     int
 	workdir  string
 	agree    bool // thorough: two solvers must agree on unsat
@@ -94,6 +96,14 @@ func runSolver(ctx context.Context, s SolverCfg, file string, opts solveOpts) (s
 func solveOne(o *Obligation, opts solveOpts) {
 	if o.Status == "unbound" || (o.Status == "unsat" && (o.Kind == "site-enum" || o.Kind == "owner")) {
 		return
+	}
+	// "opt timeout=N" on a contract: a floor for the per-query budget of that function's obligations
+	if o.vc != nil && o.vc.S != nil {
+		if ct := o.vc.S.Contracts[o.Fn]; ct != nil {
+			if v, err := strconv.Atoi(ct.Opts["timeout"]); err == nil && v > opts.timeoutS {
+				opts.timeoutS = v
+			}
+		}
 	}
 	if o.Cover {
 		// reachability checks are satisfiability queries: quantified background axioms only make
@@ -206,6 +216,38 @@ func solveOne(o *Obligation, opts solveOpts) {
 			o.Status, o.Backend = v, k+" (others unknown)"
 		}
 		return
+	}
+	// stage 3: nobody answered within the budget. A query near the limit is decided under some solver seeds
+	// and not under others (and slower on a loaded machine); before calling it undecided, race all solvers once
+	// more under another seed with twice the budget. Only definite answers are taken.
+	if !opts.noRetry && !strings.Contains(o.Name, "[known]") {
+		ro := opts
+		ro.seed = opts.seed + 7
+		ro.timeoutS = opts.timeoutS + opts.timeoutS/2
+		ctx3, cancel3 := context.WithCancel(context.Background())
+		ch3 := make(chan r, len(solvers))
+		for _, sv := range solvers {
+			go func(sv SolverCfg) {
+				st, text, _ := runSolver(ctx3, sv, file, ro)
+				ch3 <- r{sv.Name, st, text}
+			}(sv)
+		}
+		for range solvers {
+			x := <-ch3
+			if x.st == "unsat" || x.st == "sat" {
+				o.Status, o.Backend = x.st, x.name+" (second attempt)"
+				if x.st == "sat" {
+					for _, sv := range solvers {
+						if sv.Name == x.name {
+							o.Model = getModel(o, sv, opts)
+						}
+					}
+				}
+				cancel3()
+				return
+			}
+		}
+		cancel3()
 	}
 	o.Status = "unknown"
 	if errText != "" {
